@@ -153,6 +153,8 @@ func slotAlts() []slotAlt {
 		// generics
 		{label: "Pair[Count]", typ: "Pair[Count]", declB: "type Pair[T any] struct {\n\tA, B T\n}\n", local: true},
 		{label: "Pair[int]", typ: "Pair[int]", declB: "type Pair[T any] struct {\n\tA, B T\n}\n", local: true},
+		{label: "Pair[AliasInt]", typ: "Pair[AliasInt]", declA: "type AliasInt = int\n", declB: "type Pair[T any] struct {\n\tA, B T\n}\n", local: true},
+		{label: "Box[[]string]", typ: "Box[[]string]", declB: "type Box[T any] struct {\n\tV []T\n}\n", local: true},
 		{label: "Box[Circle]", typ: "Box[Circle]", declA: "type Box[T any] struct {\n\tV []T\n}\n", local: true},
 		// time and dates
 		{label: "time.Time", typ: "time.Time"},
@@ -213,6 +215,8 @@ var slotTags = []string{
 	"`gomacro-opaque:\"typescript\"`",
 	"`gomacro-opaque:\"dart,typescript\"`",
 	"`gomacro-data:\"ignore\"`",
+	"`json:\"slot_x\" gomacro:\"ignore\"`",
+	"`gomacro:\"ignore\" json:\",omitempty\"`",
 }
 
 // TypesOpt restricts the F-types family for the checks that only need part of it.
@@ -278,7 +282,7 @@ func TypesWith(c explore.Chooser, opt TypesOpt) *prog.Program {
 	host := s.Pick("slot.host", hosts...)
 	neighbourTag := s.Pick("union.neighbour-tag", "", "`json:\"name\"`", "`json:\"-\"`", "`json:\"n,omitempty\"`")
 	unionFieldTag := s.Pick("union.field-tag", "", "`json:\"-\"`", "`json:\"sh\"`", "`json:\"sh,omitempty\"`", "`gomacro:\"ignore\"`")
-	embedded := s.Pick("embedded", "none", "exported", "unexported", "tagged", "from-sub", "non-struct", "tagged-same-name", "tagged-omitempty")
+	embedded := s.Pick("embedded", "none", "exported", "unexported", "tagged", "from-sub", "non-struct", "tagged-same-name", "tagged-omitempty", "unexported-in-member", "pointer")
 	reexport := s.Pick("root-const-of-sub-enum", "no", "yes")
 	style := s.Pick("decl.style", "separate", "grouped", "same-line")
 	dartRoot := s.Pick("dart.root", "under-go-src", "outside-go-src")
@@ -348,15 +352,19 @@ func TypesWith(c explore.Chooser, opt TypesOpt) *prog.Program {
 	}
 	add(fmt.Sprintf("type Circle struct {\n\tRadius int\n%s}", circleSlot))
 	methods = append(methods, "func (Circle) isShape() {}")
+	squareEmb := ""
+	if embedded == "unexported-in-member" {
+		squareEmb = "\tbase\n"
+	}
 	if unionForm != "1-struct" {
 		if unionForm == "member-in-other-file" {
-			b.WriteString("type Square struct {\n\tSide float64\n}\n\n")
+			b.WriteString("type Square struct {\n" + squareEmb + "\tSide float64\n}\n\n")
 		} else {
-			add("type Square struct {\n\tSide float64\n}")
+			add("type Square struct {\n" + squareEmb + "\tSide float64\n}")
 		}
 		methods = append(methods, "func (Square) isShape() {}")
 	} else {
-		add("type Square struct {\n\tSide float64\n}")
+		add("type Square struct {\n" + squareEmb + "\tSide float64\n}")
 	}
 	add("type Count int")
 	switch unionForm {
@@ -435,6 +443,12 @@ func TypesWith(c explore.Chooser, opt TypesOpt) *prog.Program {
 	case "tagged-omitempty":
 		add("type Base struct {\n\tCreated int\n\tOwner   string\n}")
 		embField = "\tBase `json:\",omitempty\"`\n"
+	case "unexported-in-member":
+		// an unexported struct type embedded in a struct that holds no union (the union member Square)
+		add("type base struct {\n\tCreated int\n\tOwner   string\n}")
+	case "pointer":
+		add("type Base struct {\n\tCreated int\n\tOwner   string\n}")
+		embField = "\t*Base\n"
 	case "from-sub":
 		embField = "\tsubpkg.Base\n"
 	case "non-struct":
